@@ -42,3 +42,48 @@ Proof. intros; repeat split. Qed.
 Print Assumptions C01_matcher_is_greedy_spec.
 Print Assumptions C01_order.
 Print Assumptions C01_ranking.
+
+(** * From the rows: the same statement for a history BUILT FROM INPUT ROWS, in terms of transactions.
+    [built_history sched h t] (Proofs/ComputeTotal.v): [build h = Ok t] (the constructors accepted every row, row ids distinct
+    per table, the IN table not empty; the three sets sorted by instant), the IN rows in sheet order ([in_rows_increasing]), no
+    STAKING acquisition of an amount <= 0, events of one instant in one local year (finding F13), the schedule has an entry at or
+    before the year of every taxable event and its years are distinct.  The well-formedness [wf] of the matcher input is DERIVED
+    from these ([pipeline_wf]), no longer a hypothesis.  [lot_balance fs a] = crypto_in of [a] minus the fractions of [fs] taken
+    from [a]; [ranks_before m a b] (Model/FromRowsSpec.v) spells the ranking out per method.
+    Every fraction with a lot is taken from the acquisition that the method in force for the disposal's local year ranks first
+    among all acquisitions of [t] made at or before the disposal's instant that still have unconsumed balance. *)
+From RP2V Require Import Base.Sorting Model.Txn Model.Pipeline Model.FromRowsSpec Proofs.L4Examples Proofs.ComputeTotal Proofs.FromRows Proofs.FromRowsExamples.
+
+Theorem C01_order_from_rows : forall sched h t, built_history sched h t ->
+  forall fs, fractions_of gen_always_repush sched t = Ok fs ->
+  forall k f lr, nth_error fs k = Some f -> f_lot f = Some lr ->
+  exists evs x a y m,
+    taxable_events t = Ok evs /\ In x evs /\ t_row x = f_ev f /\ t_is_earning x = false /\
+    In a (t_ins t) /\ i_row a = lr /\
+    meth_for sched (local_year (t_ts x)) None = Some (y, m) /\
+    in_us a <= t_us x /\
+    0 < f_amt f <= lot_balance (firstn k fs) a /\
+    (forall b, In b (t_ins t) -> b <> a -> in_us b <= t_us x -> 0 < lot_balance (firstn k fs) b -> ranks_before m a b).
+Proof. exact order_from_rows. Qed.
+
+(** the ranking, per method: oldest first (FIFO; among equal instants the earlier sheet row); newest first (LIFO; among equal
+    instants the later sheet row); highest / lowest spot price first (HIFO / LOFO; among equal prices the older lot) *)
+Theorem C01_ranking_from_rows : forall a b,
+  (ranks_before Fifo a b <-> in_us a < in_us b \/ (in_us a = in_us b /\ i_row a < i_row b)) /\
+  (ranks_before Lifo a b <-> in_us b < in_us a \/ (in_us b = in_us a /\ i_row b < i_row a)) /\
+  (ranks_before Hifo a b <-> i_spot b < i_spot a \/ (i_spot a = i_spot b /\ (in_us a < in_us b \/ (in_us a = in_us b /\ i_row a < i_row b)))) /\
+  (ranks_before Lofo a b <-> i_spot a < i_spot b \/ (i_spot a = i_spot b /\ (in_us a < in_us b \/ (in_us a = in_us b /\ i_row a < i_row b)))).
+Proof. exact ranking_from_rows. Qed.
+
+(** non-vacuity (Proofs/FromRowsExamples.v): history A of L4Examples.v is a [built_history] under FIFO and under HIFO; under HIFO
+    the sale of row 4 is taken from the 200-priced lot of row 2 while the older lot of row 1 still has balance *)
+Theorem C01_from_rows_nonvacuous :
+  built_history schedA hA tA /\ built_history schedH hA tA /\ fractions_of gen_always_repush schedH tA = Ok fsA_hifo /\
+  exists f, nth_error fsA_hifo 1 = Some f /\ f_lot f = Some 2 /\
+  exists a b, In a (t_ins tA) /\ In b (t_ins tA) /\ i_row a = 2 /\ i_row b = 1 /\ 0 < lot_balance (firstn 1 fsA_hifo) b /\
+              in_us b < in_us a /\ ranks_before Hifo a b.
+Proof. exact hA_from_rows_nonvacuous. Qed.
+
+Print Assumptions C01_order_from_rows.
+Print Assumptions C01_ranking_from_rows.
+Print Assumptions C01_from_rows_nonvacuous.
